@@ -932,7 +932,10 @@ def oracle_C10(run):
             n = count(sa, own)
             nb = count(sb, own)
             if n > nb and n > limit_remote:
-                out.append(fail('outbound-streams-exceed-peer-limit', i, open=n, limit=limit_remote, op=o))
+                via = 'reserved-stream' if any(v[0] == 'RESERVED_LOCAL' and sa['streams'].get(s_, ('',))[0] in
+                                               ('OPEN', 'HALF_CLOSED_LOCAL', 'HALF_CLOSED_REMOTE')
+                                               for s_, v in sb['streams'].items()) else 'new-stream'
+                out.append(fail('outbound-streams-exceed-peer-limit', i, via=via, op=o))
                 continue
         if o == 'send_headers' and client[c] and op['sid'] not in sb['streams'] and sb['state'] != 'CLOSED':
             nb = count(sb, own)
@@ -949,7 +952,10 @@ def oracle_C10(run):
                 data = obs.get('xfer_data') if o == 'xfer' else op['data']
                 rfs = raw_frames(data)
                 if rfs and before_buf_empty(run, i, c) and not any(f['type'] == wire.SETTINGS for f in rfs):
-                    out.append(fail('inbound-streams-exceed-local-limit', i, open=n, limit=lim))
+                    via = 'reserved-stream' if any(v[0] == 'RESERVED_REMOTE' and sa['streams'].get(s_, ('',))[0] in
+                                                   ('OPEN', 'HALF_CLOSED_LOCAL', 'HALF_CLOSED_REMOTE')
+                                                   for s_, v in sb['streams'].items()) else 'new-stream'
+                    out.append(fail('inbound-streams-exceed-local-limit', i, via=via))
     return out
 
 
